@@ -10,6 +10,7 @@ import BB.Oracle.Channel
 import BB.Oracle.Retry
 import BB.Oracle.Callable
 import BB.Oracle.Notifier
+import BB.Oracle.Ctx
 
 open BB.Oracle
 
@@ -19,7 +20,8 @@ def families : List (String × Fam) := [
   ("channel", ChannelFam.fam),
   ("retry", RetryFam.fam),
   ("callable", CallableFam.fam),
-  ("notifier", NotifierFam.fam)
+  ("notifier", NotifierFam.fam),
+  ("ctx", CtxFam.fam)
 ]
 
 structure OAcc (σ : Type) where
